@@ -215,6 +215,10 @@ impl<E: Endianness, BR: BitRead<E>, const PRINT: bool> BitRead<E> for CountBitRe
     }
 
     fn skip_bits_after_peek(&mut self, n: usize) {
+        self.bits_read += n;
+        if PRINT {
+            eprintln!("skip_bits_after_peek({}) (total = {})", n, self.bits_read);
+        }
         self.bit_read.skip_bits_after_peek(n)
     }
 }
